@@ -693,6 +693,18 @@ pub fn run(rng: &mut Rng, out: &mut Out, thorough: bool) {
             }
         }
     }
+    // the position stored in the last block sample is exactly a power of two (the width of the packed samples)
+    for _ in 0..(if thorough { 12 } else { 4 }) {
+        match rl_pow2_tail(rng, 40) {
+            Some((len, runs)) => {
+                let mut ops: Vec<Op> = runs.iter().map(|(s, l)| Op::TrySet(*s, *l)).collect();
+                ops.push(Op::SetLen(len));
+                out.stat("c03.pow2_tail.reached");
+                emit(out, "pow2_tail", &ops, normal, rng);
+            }
+            None => out.stat("c03.pow2_tail.not_reached"),
+        }
+    }
     // copy_bit_vec route: positions one by one, then set_len
     for _ in 0..(if thorough { 30 } else { 10 }) {
         let n = rng.range(0, 400) as usize;
